@@ -650,7 +650,12 @@ func errMsg(b []byte) (string, bool) {
 	return *m.Msg, true
 }
 
+var compileErrRE = regexp.MustCompile(`^at line \d+:\d+, `)
+
 func msgClass(s string) string {
+	if compileErrRE.MatchString(s) {
+		return "compile error"
+	}
 	s = quotedRE.ReplaceAllString(s, `"…"`)
 	s = digitsRE.ReplaceAllString(s, "N")
 	if len(s) > 70 {
@@ -689,6 +694,11 @@ func bodyDiff(a, b []byte) string {
 	}
 	if mb, ok := errMsg(b); ok {
 		return fmt.Sprintf("child ego error body (%s), in-process other", msgClass(mb))
+	}
+	var sa, sb string
+	if json.Unmarshal(a, &sa) == nil && json.Unmarshal(b, &sb) == nil {
+		// Write(value) for a JSON client: the echo text as one JSON string
+		return lineDiff([]byte(sa), []byte(sb))
 	}
 	var ja, jb map[string]any
 	if json.Unmarshal(a, &ja) == nil && json.Unmarshal(b, &jb) == nil {
@@ -827,8 +837,8 @@ func compare(a, b answer, bodyNote string) []diff {
 			continue
 		}
 		va, vb := a.Header[k], b.Header[k]
-		if k == "Content-Length" && !bodySame {
-			continue // follows from the body difference
+		if k == "Content-Length" && !bytes.Equal(a.Body, b.Body) {
+			continue // follows from the body difference (or from a masked field of different width)
 		}
 		if strings.Join(va, "\x00") == strings.Join(vb, "\x00") {
 			continue
@@ -1315,6 +1325,11 @@ func genSvc(t *rapid.T) Svc {
 		s.HOps = append(s.HOps, h)
 	}
 	s.Tail = rapid.SampledFrom([]string{"", "", "", "", "", "", "diverr", "exit"}).Draw(t, "tail")
+	if s.Out == "none" && s.Status == 0 && len(s.HOps) == 0 {
+		// a handler that never touches w does not compile ("variable created
+		// but never used: w")
+		s.Status = 200
+	}
 	return s
 }
 
